@@ -20,11 +20,18 @@ ID = 'C15'
 LEAN_MODULE = 'CC.Properties.C15'
 LEVEL = 'proof'
 THEOREMS = [
-    'CC.C15_persistable_total', 'CC.C15_tables', 'CC.C15_value_roundtrip', 'CC.C15_phase_roundtrip',
+    'CC.C15_persistable_total', 'CC.C15_tables',
+    'CC.C15_value_roundtrip', 'CC.C15_phase_roundtrip',      # kernel lemmas about savedVal / savedPhase (see their docstrings)
     'CC.C15_roundtrip_element', 'CC.C15_stable_element', 'CC.C15_roundtrip', 'CC.C15_stable', 'CC.C15_cycles',
     'CC.C15_declarative',
 ]
-OPEN_STATEMENTS = []
+OPEN_STATEMENTS = [
+    'a declarative element list produces the same symbol list / circuit as the corresponding constructor calls (handler lookup, '
+    'direction → method, length × unit, place_after): the model function `declarative` is in no theorem (C15_declarative only says '
+    'that the placement keys do not reach the constructor) — generated tables (C15_tables) + correspondence + oracle',
+    'C15_roundtrip / C15_stable assume the keyword layouts of C15_Canonical and unique element names; other layouts (extra opaque '
+    'keywords such as placement parameters) are covered by the correspondence and the oracle only',
+]
 ASSUMPTIONS = [
     'json.loads(json.dumps(t)) = t on the stored tree (floats round-trip exactly through repr); yaml likewise',
     'schemdraw object construction and placement are parameters: save stores and load restores the anchors verbatim',
